@@ -36,11 +36,12 @@ func spin(k int64) {
 }
 
 const (
-	mForce   = 1 // ForceAcquire allowed
-	mResize  = 2 // SetSize allowed
-	mCancel  = 4 // contexts may be cancelled while waiting
-	mZero    = 8 // weight 0 allowed
-	mObserve = 16
+	mForce     = 1 // ForceAcquire allowed
+	mResize    = 2 // SetSize allowed
+	mCancel    = 4 // contexts may be cancelled while waiting
+	mZero      = 8 // weight 0 allowed
+	mObserve   = 16
+	mWaitEmpty = 32 // WaitEmpty allowed (reads s.size outside the mutex: racy together with mResize)
 )
 
 // soak runs `workers` goroutines doing `nops` random operations each on one semaphore; a monitor goroutine
@@ -70,7 +71,11 @@ func soak(seed uint64, workers, nops int, size, maxw int64, mode int) string {
 				return
 			default:
 			}
-			cur, sz, q := semaphore.VerifSnapshot(sem)
+			cur, sz, q, ok := semaphore.VerifTrySnapshot(sem)
+			if !ok {
+				runtime.Gosched()
+				continue
+			}
 			if len(q) > 0 && q[0] <= sz-cur {
 				if q[0] == 0 && sz == cur {
 					setFail("lost-wakeup-zero")
@@ -156,6 +161,14 @@ func soak(seed uint64, workers, nops int, size, maxw int64, mode int) string {
 					sem.SetSize(r.below(2*size + 1))
 				case k == 9 && mode&mObserve != 0:
 					sem.Observe()
+				case k >= 7 && mode&mWaitEmpty != 0:
+					ctx, cancel := context.WithCancel(context.Background())
+					delay := r.below(40)
+					var cw sync.WaitGroup
+					cw.Add(1)
+					go func() { defer cw.Done(); spin(delay); cancel() }()
+					_ = sem.WaitEmpty(ctx)
+					cw.Wait()
 				default:
 					spin(1)
 				}
@@ -166,14 +179,27 @@ func soak(seed uint64, workers, nops int, size, maxw int64, mode int) string {
 	go func() { wg.Wait(); close(doneCh) }()
 	select {
 	case <-doneCh:
-	case <-time.After(30 * time.Second):
-		cur, sz, q := semaphore.VerifSnapshot(sem)
+	case <-time.After(15 * time.Second):
 		close(stop)
-		return fmt.Sprintf("fail hang cur=%d size=%d queue=%v", cur, sz, q)
+		if cur, sz, q, ok := semaphore.VerifTrySnapshot(sem); ok {
+			return fmt.Sprintf("fail hang cur=%d size=%d queue=%v", cur, sz, q)
+		}
+		return "fail hang with the mutex held"
 	}
 	close(stop)
 	mon.Wait()
-	cur, _, q := semaphore.VerifSnapshot(sem)
+	var cur int64
+	var q []int64
+	ok := false
+	for i := 0; i < 100000 && !ok; i++ {
+		cur, _, q, ok = semaphore.VerifTrySnapshot(sem)
+		if !ok {
+			time.Sleep(10 * time.Microsecond)
+		}
+	}
+	if !ok {
+		return "fail mutex left locked"
+	}
 	if failure == "" && (cur != 0 || len(q) != 0) {
 		setFail(fmt.Sprintf("final cur=%d queue=%v", cur, q))
 	}
